@@ -1,35 +1,7 @@
-(* Model-side driver: reads one case per line on stdin, evaluates the extracted Coq model,
-   prints one canonical result line per case (same format as the Rust harness). *)
+(* Model-side driver of the codec group (C01, C02, C16): evaluates the extracted Coq model
+   on the same case lines as the Rust harness and hosts the monitors. *)
 open Model
-
-(* ---- conversions between OCaml ints and the extracted numbers ---- *)
-let rec pos_of_int (i : int) : positive =
-  if i = 1 then XH
-  else if i land 1 = 0 then XO (pos_of_int (i lsr 1))
-  else XI (pos_of_int (i lsr 1))
-let n_of_int (i : int) : n = if i = 0 then N0 else Npos (pos_of_int i)
-let rec int_of_pos = function
-  | XH -> 1
-  | XO p -> 2 * int_of_pos p
-  | XI p -> 2 * int_of_pos p + 1
-let int_of_n = function N0 -> 0 | Npos p -> int_of_pos p
-let rec nat_of_int i = if i <= 0 then O else S (nat_of_int (i - 1))
-let rec int_of_nat = function O -> 0 | S n -> 1 + int_of_nat n
-
-(* ---- hex ---- *)
-let hexval c =
-  match c with
-  | '0' .. '9' -> Char.code c - 48
-  | 'a' .. 'f' -> Char.code c - 87
-  | 'A' .. 'F' -> Char.code c - 55
-  | _ -> failwith "bad hex"
-let bytes_of_hex (s : string) : n list =
-  let s = if s = "-" then "" else s in
-  let len = String.length s / 2 in
-  List.init len (fun i -> n_of_int ((hexval s.[2 * i] * 16) + hexval s.[(2 * i) + 1]))
-let hex_of_bytes (l : n list) : string =
-  if l = [] then "-"
-  else String.concat "" (List.map (fun b -> Printf.sprintf "%02x" (int_of_n b)) l)
+open Drvlib
 
 (* ---- TXT properties:  "-" = empty list; props separated by ','; each "keyhex:valhex",
         value "~" = no value (boolean key), "-" = empty value ---- *)
@@ -44,12 +16,6 @@ let props_of_string (s : string) =
 let string_of_prop (k, v) =
   hex_of_bytes k ^ ":" ^ (match v with None -> "~" | Some v -> hex_of_bytes v)
 let string_of_props ps = if ps = [] then "-" else String.concat "," (List.map string_of_prop ps)
-
-let res_to_string f = function
-  | Ok a -> "OK " ^ f a
-  | Err -> "ERR"
-  | Panic -> "PANIC"
-  | OutOfFuel -> "HANG"
 
 (* ---- wire messages ---- *)
 let b01 b = if b then "1" else "0"
@@ -73,12 +39,6 @@ let string_of_msg m =
     (string_of_rrs m.m_authorities) (string_of_rrs m.m_additionals)
 
 (* ---- outgoing messages (enc / encdec cases) ---- *)
-let n_of_string s = n_of_int (int_of_string s)
-(* 64-bit capable decimal -> N (created / now can exceed OCaml's 63-bit int only in theory) *)
-let n_of_dec (s : string) : n =
-  let rec go acc i = if i >= String.length s then acc
-    else go (N.add (N.mul acc (n_of_int 10)) (n_of_int (Char.code s.[i] - 48))) (i + 1) in
-  go N0 0
 let split_on c s = String.split_on_char c s
 let parse_rdata (s : string) : rdata =
   match String.index_opt s ':' with
@@ -152,7 +112,6 @@ let run_case (line : string) : string =
 
 (* ---- monitors: the property statements as executable predicates over what the
         implementation returned (same extracted definitions the theorems are about) ---- *)
-let starts_with s p = String.length s >= String.length p && String.sub s 0 (String.length p) = p
 
 let rec is_sublist (s : 'a list) (l : 'a list) : bool =
   let rec prefix s l = match s, l with [], _ -> true | x :: s', y :: l' -> x = y && prefix s' l' | _ -> false in
@@ -231,13 +190,6 @@ let mon_c01 (case : string list) (result : string) : string =
 
 (* C02: chk_C02 (extracted) on the implementation's packets; the crate decoder's reading of
    each packet against the reference parser's *)
-let split_str (sep : string) (s : string) : string list =
-  let n = String.length sep in
-  let rec go acc start i =
-    if i + n > String.length s then List.rev (String.sub s start (String.length s - start) :: acc)
-    else if String.sub s i n = sep then go (String.sub s start (i - start) :: acc) (i + n) (i + n)
-    else go acc start (i + 1) in
-  go [] 0 0
 
 let expected_decode (p : n list) : string option =
   match ref_parse p with
@@ -275,30 +227,12 @@ let mon_c02 (case : string list) (result : string) : string =
     end
   | _ -> "BADCASE"
 
-let run_monitor (line : string) : string =
-  (* "mon <ID> <case...> => <result...>" *)
-  let sep = " => " in
-  let idx =
-    let rec find i = if i + 4 > String.length line then -1 else if String.sub line i 4 = sep then i else find (i + 1) in
-    find 0 in
-  if idx < 0 then "BADCASE" else
-  let left = String.sub line 0 idx and result = String.sub line (idx + 4) (String.length line - idx - 4) in
-  match String.split_on_char ' ' left with
-  | "mon" :: id :: case ->
-    (try
-      (match id with
-       | "C16" -> mon_c16 case result
-       | "C01" -> mon_c01 case result
-       | "C02" -> mon_c02 case result
-       | _ -> "BADCASE")
-     with _ -> "BAD monitor exception")
+
+let run_monitor (id : string) (case : string list) (result : string) : string =
+  match id with
+  | "C16" -> mon_c16 case result
+  | "C01" -> mon_c01 case result
+  | "C02" -> mon_c02 case result
   | _ -> "BADCASE"
 
-let () =
-  try
-    while true do
-      let line = input_line stdin in
-      if line <> "" then
-        print_endline (if starts_with line "mon " then run_monitor line else (try run_case line with Failure m -> "BADCASE " ^ m))
-    done
-  with End_of_file -> ()
+let () = main_loop run_case run_monitor
